@@ -49,7 +49,7 @@ func names5(d, m, s, l, n packet.NameEntry) map[string]string {
 	out := map[string]string{}
 	for k, v := range map[string]string{"dhcp": d.Name, "mdns": m.Name, "ssdp": s.Name, "llmnr": l.Name, "nbns": n.Name} {
 		if v != "" {
-			out[k] = v // absent slot = no name learned
+			out[k] = NameOrNone(v) // absent slot = no name learned
 		}
 	}
 	return out
